@@ -192,21 +192,23 @@ esl_gam_invcdf(double p, double mu, double lambda, double tau)
   double f2, fm;
   double tol = 1e-6;
   
-  x1 = 0.;
-  x2 = tau / lambda;
+  x1 = mu;
+  x2 = tau / lambda;		/* x2 is relative to mu while bracketing */
   do {				/* bracket */
     x2 = x2*2.;
-    f2 = esl_gam_cdf(x2, mu, lambda, tau);
+    f2 = esl_gam_cdf(mu+x2, mu, lambda, tau);
   } while (f2 < p);
+  x2 += mu;
 
   do {				/* bisection */
     xm = (x1+x2)/ 2.;
+    if (xm <= x1 || xm >= x2) break; /* x1,x2 are adjacent doubles: can't do better */
     fm = esl_gam_cdf(xm, mu, lambda, tau);
     
     if      (fm > p) x2 = xm;
     else if (fm < p) x1 = xm;
     else return xm;		/* unlikely exact fm==p */
-  } while ( (x2-x1)/(x1+x2) > tol);
+  } while ( (x2-x1)/(x1+x2-2*mu) > tol);
 
   xm = (x1+x2)/2.;
   return xm;
